@@ -758,6 +758,7 @@ Section SR.
   Lemma iso_w_R : forall a s, Rl s (snd (iso_w W a s)).
   Proof.
     intros a s. unfold iso_w.
+    destruct (negb (w_isdelta W a)); [cbn [snd]; apply Rl_refl|].
     destruct (memo_get (atom_eqv W) N.eqb (t_iso s) a) as [[[cv tbl] coll]|]; cbn [snd].
     - eapply Rl_trans; [apply Rl_set_iso | apply Rl_flag].
     - destruct (w_iso W a); cbn [snd]; [apply Rl_set_iso | apply Rl_refl | apply Rl_refl].
@@ -886,6 +887,7 @@ Section Concrete.
     Inv W (snd (iso_w W a s)) /\ fst (iso_w W a s) = w_iso W a.
   Proof.
     intros a s. unfold iso_w.
+    destruct (negb (w_isdelta W a)); [cbn [fst snd]; intros _ Is; split; [exact Is|reflexivity]|].
     destruct (memo_get (atom_eqv W) N.eqb (t_iso s) a) as [[[t tbl] coll]|] eqn:E; cbn [fst snd].
     - intros HB Is. apply bad_flag_false in HB. destruct HB as [_ Hcoll].
       apply memo_get_some in E. destruct E as [k' [Hin [Hc' HF]]].
